@@ -799,7 +799,7 @@ def decap_oracle(i, op, so, o, fed, mand, rx_last, trains, info, strict, sess, F
     # fed too, and storage is sufficient by construction of the session
     if strict and sess.__dict__.get("_strict_ok", True) and src is not None and src.get("ok") and src.get("pkt") is not None:
         if so.err:
-            if so.toks[1] in ("Memory.underflow", "SizePduBuffer") or so.toks[1].startswith("Memory.overflow"):
+            if so.toks[1] == "Memory.underflow" or so.toks[1].startswith("Memory.overflow"):
                 sess._strict_ok = False      # resources ran out: later packets of this session are not judged
             elif pk.kind in "CF" and src.get("passed") is not None and src["passed"].kind == "U" and src.get("prev_before") is None:
                 # explicit re-use label with nothing to re-use: rejection is right
